@@ -27,7 +27,9 @@
 //   - a generated proof verifies (VIOL:incomplete otherwise);
 //   - a proof that verifies against the root of the current items must be for
 //     items[index] (VIOL:unsound) with total = len(items) (VIOL:total-malleable);
-//   - nothing verifies against an empty root (VIOL:nil-root);
+//   - nothing verifies against an empty root (VIOL:nil-root — fixed in /repo 96b4d2262f for Verify and
+//     TxProof.Validate, a regression if it returns; VIOL:nil-root-valueop for the still-open
+//     SimpleValueOp + ProofOperators.Verify path);
 //   - Verify accepts exactly when the oracle's strict reference check accepts
 //     (VIOL:verify-accepts / VIOL:verify-rejects).
 package main
@@ -656,7 +658,7 @@ func exec(t []string) (string, string) {
 		if res == "ok" {
 			switch {
 			case len(root) == 0:
-				o = fmt.Sprintf("VIOL:nil-root map proof(total=%d,index=%d) for key %s accepted against an empty root", p.total, p.index, kit.Hex(key))
+				o = fmt.Sprintf("VIOL:nil-root-valueop SimpleValueOp proof(total=%d,index=%d) for key %s accepted by ProofOperators.Verify against an empty root", p.total, p.index, kit.Hex(key))
 			case !refAccept:
 				o = "VIOL:verify-accepts map proof accepted but the reference recomputation rejects"
 			case len(st.m) > 0 && bytes.Equal(root, st.omroot):
@@ -675,10 +677,27 @@ func exec(t []string) (string, string) {
 	return "err:badop", "-"
 }
 
-// runValueOp: the code path a verifier of a simple-map entry uses:
-// SimpleValueOp.Run([value]) then compare the produced root (ProofOperators.Verify).
+// runValueOp: the code path a verifier of a simple-map entry uses —
+// merkle.ProofOperators{SimpleValueOp}.Verify(root, "/x:<KEY>", [value]), i.e.
+// SimpleValueOp.Run([value]) followed by bytes.Equal(root, computedRoot).
+// (An empty key cannot be expressed in a key path — "Keypath not consumed all" —
+// so for it the same two steps are done by hand.)
 func runValueOp(key, value, root []byte, sp *merkle.SimpleProof) string {
 	op := merkle.NewSimpleValueOp(key, sp)
+	if len(key) > 0 {
+		var kp merkle.KeyPath
+		kp = kp.AppendKey(key, merkle.KeyEncodingHex)
+		err := merkle.ProofOperators{op}.Verify(root, kp.String(), [][]byte{value})
+		switch {
+		case err == nil:
+			return "ok"
+		case strings.Contains(err.Error(), "leaf hash mismatch"):
+			return "err:leafhash"
+		case strings.Contains(err.Error(), "Calculated root hash is invalid"):
+			return "err:root"
+		}
+		return "err:other"
+	}
 	out, err := op.Run([][]byte{value})
 	if err != nil {
 		if strings.Contains(err.Error(), "leaf hash mismatch") {
